@@ -209,6 +209,17 @@ impl BuildSystem {
                 discovered_structs,
                 config,
             ) {
+                // A matching cache is not enough: a generated file may have been deleted since
+                Ok(false)
+                    if !GenerationCache::outputs_present(
+                        &config.output_path,
+                        !analyzer.get_discovered_events().is_empty(),
+                        config.should_visualize_deps(),
+                    ) =>
+                {
+                    self.logger
+                        .verbose("Generated files are missing, regenerating");
+                }
                 Ok(false) => {
                     self.logger
                         .verbose("Cache hit - no changes detected, skipping generation");
